@@ -142,28 +142,40 @@ def read_tap(path) -> list[dict]:
 
 
 def _wrap_rule(rule):
-    """Pass-through recorder on a rule instance: records exceptions leaving check()/finalize()."""
+    """Pass-through recorder: records exceptions leaving check()/finalize().
+
+    Installed on the rule's *class* (once), never on the instance: an instance attribute
+    holding a closure over the rule would create a reference cycle and delay the release of
+    the rule's resources (SQLite temp files) until a garbage collection that never happens
+    in a pool worker - the harness must not change object lifetimes.
+    """
+    cls = type(rule)
+    from src.core.base import BaseLintRule
     for name in ("check", "finalize"):
-        orig = getattr(rule, name, None)
+        orig = getattr(cls, name, None)
         if orig is None or getattr(orig, "_vsim_wrapped", False):
             continue
+        if name == "finalize" and orig is getattr(BaseLintRule, "finalize", None):
+            continue  # keep "does this rule override finalize()?" observable to the code under test
 
-        def make(orig=orig, name=name, rule=rule):
-            def wrapped(*a, **kw):
+        def make(orig=orig, name=name):
+            def wrapped(self, *a, **kw):
                 try:
-                    return orig(*a, **kw)
+                    return orig(self, *a, **kw)
                 except BaseException as e:
                     fp = None
                     if a and hasattr(a[0], "file_path"):
                         fp = str(a[0].file_path)
-                    tap_write({"site": "recorder", "method": name, "rule": _rule_id(rule), "file": fp,
+                    tap_write({"site": "recorder", "method": name, "rule": _rule_id(self), "file": fp,
                                "exc_type": type(e).__name__, "exc_msg": str(e)[:300]})
                     raise
             wrapped._vsim_wrapped = True
+            wrapped.__name__ = name
+            wrapped.__doc__ = getattr(orig, "__doc__", None)
             return wrapped
         try:
-            setattr(rule, name, make())
-        except AttributeError:
+            setattr(cls, name, make())
+        except (AttributeError, TypeError):
             pass
 
 
